@@ -184,6 +184,24 @@ def check(ctx):
             drv = [lib.tail(n_, 1) for _, ch in chain for n_ in ch]
             dests = origins(rem, rem.blocks[L.driver]["term"]["args"][0])
             ok = ok and any(fr and lib.tail(mir.fn_name(fr), 2) == "RevokeToken::iter_unique_entities" for b, t, fr in rem.iter_calls())
+            # ... all of them: between the token's entity iterator and the loop only element-preserving steps (no `skip`, `take`,
+            # `filter`, `step_by`, ..: an entity left out keeps its local data after its last trigger is gone)
+            keep_all = {"iter_unique_entities", "into_iter", "iter", "map", "by_ref", "copied", "cloned", "deref", "deref_mut", "as_ref", "borrow",
+                        "borrow_mut", "clone", "as_slice", "collect", "from_iter", "to_vec", "into_boxed_slice", "peekable", "fuse", "inspect", "enumerate"}
+            chains_ = [[lib.tail(n_, 1) for n_ in ch_] for _, ch_ in chain]
+            if not chains_:
+                # a loop the view built (`for_each` / `extend` desugared): the chain of the value its `into_iter` received
+                for o_ in origins(rem, rem.blocks[L.driver]["term"]["args"][0]):
+                    if o_[0] == "call":
+                        t_ = rem.blocks[o_[1]]["term"]
+                        f_ = op_fn(t_["func"])
+                        if f_ is not None and lib.tail(mir.fn_name(f_), 1) == "into_iter" and t_["args"]:
+                            chains_ += [[lib.tail(n_, 1) for n_ in ch_] for _, ch_ in lib.receiver_chains(rem, t_["args"][0])]
+            for names_ in chains_:
+                if "iter_unique_entities" not in names_:
+                    continue            # (not a chain from the token: decided by the call check above)
+                after_ = names_[len(names_) - 1 - names_[::-1].index("iter_unique_entities") + 1:]
+                ok = ok and all(d_ in keep_all for d_ in after_)
             agg = None
             for o in origins(rem, cs[0][1]["args"][1]):
                 if o[0] == "agg":
